@@ -71,7 +71,14 @@ def random_layout(rng, comments=True):
 
 STRING_POOL = [" padded ", "tab\tinside", "a#b", "\u00fcn\u00efc\u00f6de \u4e2d\u6587", "with 'apos'", 'with "dq"', "multi\nline", "  ", "semi;colon", "100% sure",
                "back\\slash mid", "UPPER lower", "trailing space ", " leading", "\U0001F600 astral", "a/b/c.shp", "x=1 y=2", "END", "end of story", "#notcomment",
-               'Say \\"hello\\"', 'a \\"q\\" b', "it\\'s", 'ends with quote\\"', "(not an expression", "50% [approx]"]
+               'Say \\"hello\\"', 'a \\"q\\" b', "it\\'s", 'ends with quote\\"', "(not an expression", "50% [approx]",
+               # strings that look like numbers (the same keyword may also carry the number itself), strings wrapped in the
+               # other quote character
+               "2", "10", "2.5", "007", "1e3", "'single wrapped'", "'x'"]
+# values for key-value blocks, CONFIG, repeated string keywords and PROJECTION lines (no line breaks: PROJECTION
+# strings and CONFIG values are single-line by nature)
+KV_POOL = ["plain", " padded ", "a#b", "with 'apos'", "'single wrapped'", "'x'", "2", "2.0", "10", "UPPER lower", "x=1 y=2", "\u00fcn\u00efc\u00f6de \u4e2d\u6587",
+           "semi;colon", "a/b/c.shp", "100% sure", "END", "#notcomment", "[br]acket", "(paren"]
 
 
 def vary_strings(b, rng, prob=0.3):
@@ -83,6 +90,33 @@ def vary_strings(b, rng, prob=0.3):
             w = rng.choice(STRING_POOL)
             it.tokens = [it.tokens[0], docs.T("qstr", w)]
             it.intended = w
+        elif it.kind == "kv" and it.shape == "kv" and rng.random() < prob:
+            # METADATA / VALIDATION / VALUES / CONNECTIONOPTIONS: awkward values (keys stay plain: they are lower-cased)
+            pairs = [(k, rng.choice(KV_POOL)) for k, _ in it.intended[1]]
+            toks = [it.tokens[0]]
+            for k, v in pairs:
+                toks += [docs.T("qstr", k), docs.T("qstr", v)]
+            it.tokens = toks + [it.tokens[-1]]
+            it.intended = ("kv", pairs)
+        elif it.kind == "attr" and it.repeated and it.shape in ("repeated-1", "repeated-2") and rng.random() < prob:
+            vals = [rng.choice(KV_POOL) for _ in it.intended]
+            toks = []
+            for v in vals:
+                toks += [it.tokens[0], docs.T("qstr", v)]
+            it.tokens = toks
+            it.intended = vals
+
+
+def vary_numbers(b, rng, prob=0.25):
+    """spell some integral numbers of float-capable slots as floats (2 -> 2.0; the intended value becomes the float):
+    one document then carries equal numbers of both types"""
+    for it in b.items:
+        if isinstance(it, docs.Block):
+            vary_numbers(it, rng, prob)
+        elif it.kind == "attr" and not it.repeated and it.shape.startswith("number") and len(it.tokens) == 2 \
+                and it.tokens[1].kind == "num" and isinstance(it.intended, int) and not isinstance(it.intended, bool) and rng.random() < prob:
+            it.tokens = [it.tokens[0], docs.T("num", "%d.0" % it.intended)]
+            it.intended = float(it.intended)
 
 
 def add_contract_cases(doc, rng):
@@ -132,6 +166,7 @@ def gen_documents(rng, n, max_depth=3, roots=None, vary=True, contract=False, po
         if vary:
             for b in (d if isinstance(d, list) else [d]):
                 vary_strings(b, rng)
+                vary_numbers(b, rng)
         if contract:
             for b in (d if isinstance(d, list) else [d]):
                 add_contract_cases(b, rng)
